@@ -38,14 +38,21 @@ def rdSc (K : Type) [Sc K] : Rd K := do
   | some v => pure v
   | none => failure
 
+/-- `<gid|-> <fit flag: 0 none | 1 singular | 2 not enough points> <nsrc> <src…>` -/
 def rdImg : Rd Img := do
   let g ← rdTok
   let gid : Option Nat ← (if g == "-" then pure none else match g.toNat? with
     | some n => pure (some n)
     | none => failure)
+  let fl ← rdNat
+  let ff : Option FitFail ← (match fl with
+    | 0 => pure none
+    | 1 => pure (some .singular)
+    | 2 => pure (some .notEnoughPoints)
+    | _ => failure)
   let k ← rdNat
   let srcs ← rdMany k rdNat
-  pure { gid := gid, sources := srcs }
+  pure { gid := gid, sources := srcs, fitFail := ff }
 
 structure Scenario (K : Type) where
   cfg : AlignCfg
@@ -54,25 +61,8 @@ structure Scenario (K : Type) where
   pairG : List (List (K × Nat))
   areas : List ((Nat × Nat) × (K × Nat))
 
-def rdScenario (K : Type) [Sc K] [NatCast K] : Rd (Scenario K) := do
-  let e ← rdNat; let u ← rdNat; let minobj ← rdNat; let fitmin ← rdNat; let md ← rdNat
-  if e > 1 ∨ u > 1 ∨ md > 1 then failure
-  rdLit "I"
-  let nimg ← rdNat
-  let imgs ← rdMany nimg rdImg
-  rdLit "R"
-  let rk ← rdTok
-  let refIn : Option (List Nat × Option (List Int)) ←
-    if rk == "none" then pure none
-    else if rk == "table" then do
-      let k ← rdNat
-      let srcs ← rdMany k rdNat
-      let hasId ← rdNat
-      if hasId == 1 then do
-        let ids ← rdMany k rdInt
-        pure (some (srcs, some ids))
-      else pure (some (srcs, none))
-    else failure
+/-- `P <n> <n*n areas> <n*n flags> A <cnt> {<catlen> <group> <area> <flag>}` up to the end of the line -/
+def rdAreas (K : Type) [Sc K] [NatCast K] : Rd (List (List (K × Nat)) × List ((Nat × Nat) × (K × Nat))) := do
   rdLit "P"
   let n ← rdNat
   let ar ← rdMany (n * n) (rdSc K)
@@ -86,6 +76,92 @@ def rdScenario (K : Type) [Sc K] [NatCast K] : Rd (Scenario K) := do
     pure ((len, g), (a, f)))
   let rest ← get
   if !rest.isEmpty then failure
+  pure (pairG, areas)
+
+def rdTable : Rd (List Nat × Option (List Int)) := do
+  let k ← rdNat
+  let srcs ← rdMany k rdNat
+  let hasId ← rdNat
+  if hasId == 1 then do
+    let ids ← rdMany k rdInt
+    pure (srcs, some ids)
+  else pure (srcs, none)
+
+def rdBool : Rd Bool := do
+  let n ← rdNat
+  if n > 1 then failure else pure (n == 1)
+
+def rdCat : Rd CatArg := do
+  let t ← rdTok
+  if t == "o" then pure .ok else if t == "m" then pure .missing else if t == "x" then pure .noXY else failure
+
+/-- `k<fitmin>` known, `u` unknown string, `n` not a string -/
+def rdFitgeom : Rd FitgeomArg := do
+  let t ← rdTok
+  if t == "u" then pure .unknown
+  else if t == "n" then pure .notString
+  else if t.startsWith "k" then
+    match (t.drop 1).toNat? with
+    | some m => pure (.known m)
+    | none => failure
+  else failure
+
+/-- `align_wcs` arguments: `<expand> <enforce> <minobj|-> <fitgeom> <mode> W single <cat> <img> |
+W list <n> {<isCorrector> <cat> <img>} | W bad   R none | R corr <hasCatalog> <n> <src…> |
+R table <hasRADEC> <n> <src…> <0|1> [<id…>] | R unsupported` -/
+def rdArgs : Rd AlignArgs := do
+  let e ← rdBool; let u ← rdBool
+  let mo ← rdTok
+  let minobj : Option Nat ← (if mo == "-" then pure none else match mo.toNat? with
+    | some n => pure (some n)
+    | none => failure)
+  let fg ← rdFitgeom
+  let md ← rdBool
+  rdLit "W"
+  let wk ← rdTok
+  let wcscat : WcscatArg ←
+    if wk == "bad" then pure .notIterable
+    else if wk == "single" then do
+      let c ← rdCat; let i ← rdImg
+      pure (.single c i)
+    else if wk == "list" then do
+      let n ← rdNat
+      let l ← rdMany n (do
+        let ic ← rdBool; let c ← rdCat; let i ← rdImg
+        pure ({ isCorrector := ic, cat := c, img := i } : ImgArg))
+      pure (.list l)
+    else failure
+  rdLit "R"
+  let rk ← rdTok
+  let refcat : RefArg ←
+    if rk == "none" then pure .none
+    else if rk == "unsupported" then pure .unsupported
+    else if rk == "corr" then do
+      let hc ← rdBool; let k ← rdNat; let srcs ← rdMany k rdNat
+      pure (.corrector hc srcs)
+    else if rk == "table" then do
+      let hr ← rdBool
+      let t ← rdTable
+      pure (.table hr t.1 t.2)
+    else failure
+  pure { wcscat := wcscat, refcat := refcat, fitgeom := fg, minobj := minobj, expand := e, enforce := u,
+         mode := if md then .none1to1 else .ideal }
+
+def rdScenario (K : Type) [Sc K] [NatCast K] : Rd (Scenario K) := do
+  let e ← rdNat; let u ← rdNat; let minobj ← rdNat; let fitmin ← rdNat; let md ← rdNat
+  if e > 1 ∨ u > 1 ∨ md > 1 then failure
+  rdLit "I"
+  let nimg ← rdNat
+  let imgs ← rdMany nimg rdImg
+  rdLit "R"
+  let rk ← rdTok
+  let refIn : Option (List Nat × Option (List Int)) ←
+    if rk == "none" then pure none
+    else if rk == "table" then do
+      let t ← rdTable
+      pure (some t)
+    else failure
+  let (pairG, areas) ← rdAreas K
   pure { cfg := { expand := e == 1, enforce := u == 1, minobj := minobj, fitmin := fitmin,
                   mode := if md == 1 then .none1to1 else .ideal },
          imgs := imgs, refIn := refIn, pairG := pairG, areas := areas }
@@ -95,6 +171,9 @@ def fmtStatus : Status → String
   | .success => "S"
   | .failed .emptyCatalog => "E"
   | .failed .notEnoughMatches => "M"
+  | .failed .singularMatrix => "G"
+  | .failed .notEnoughPoints => "P"
+  | .failed .unknownError => "U"
 
 def fmtEvent : Event → String
   | .status k s => s!"s{k}:{fmtStatus s}"
@@ -105,13 +184,32 @@ def fmtErr : AlignErr → String
   | .emptyRefcat => "emptyRefcat"
   | .lengthMismatch => "lengthMismatch"
   | .indexError => "indexError"
+  | .fitError .singular => "fitError:singular"
+  | .fitError .notEnoughPoints => "fitError:notEnoughPoints"
+  | .fitgeomKeyError => "fitgeomKeyError"
+  | .wcscatType => "wcscatType"
+  | .noCatalog => "noCatalog"
+  | .catalogNoXY => "catalogNoXY"
+  | .fitgeomNotString => "fitgeomNotString"
+  | .badFitgeom => "badFitgeom"
+  | .refNoCatalog => "refNoCatalog"
+  | .refNoRADEC => "refNoRADEC"
+  | .refcatType => "refcatType"
+  | .metaNotWritable => "metaNotWritable"
 
 def fmtGroup (g : List Nat) : String := ",".intercalate (g.map toString)
 
 def fmtRow (r : RefRow) : String :=
   s!"{r.src}:{r.id}:" ++ (match r.origin with | some k => toString k | none => "-")
 
-/-- `align <Q|F> <expand> <enforce> <minobj> <fitgeom minimum> <mode 0|1> I <nimg> {<gid|-> <nsrc> <src…>}
+def fmtOut (out : AlignOut) : String :=
+  let head := match out.err with | none => "ok" | some e => "err:" ++ fmtErr e
+  " ".intercalate ([head, "|", "T"] ++ out.events.map fmtEvent ++ ["|", "O"] ++ (out.order.zip out.nms).map (fun p => fmtGroup p.1 ++ "#" ++ toString p.2)
+    ++ ["|", "C"] ++ out.refcat.map fmtRow
+    ++ ["|", "X"] ++ out.expansions.map fun x =>
+        s!"{fmtGroup x.group}/{if x.ok then 1 else 0}/{if x.areaZero then 1 else 0}/{x.rows.length}")
+
+/-- `align <Q|F> <expand> <enforce> <minobj> <fitgeom minimum> <mode 0|1> I <nimg> {<gid|-> <fit flag 0|1|2> <nsrc> <src…>}
 R none | R table <n> <src…> <0|1> [<id…>]  P <n> <n*n areas> <n*n flags>
 A <cnt> {<catlen> <group> <area> <flag>}` →
 `<ok|err:kind> | T <events…> | O <group#nmatches…> | C <src:id:origin…> | X <group/ok/zero/nrows…>`
@@ -126,17 +224,44 @@ def opAlign (K : Type) [LT K] [DecidableLT K] [Add K] [NatCast K] [BEq K] [Sc K]
       match sc.areas.lookup (cat.length, g) with
       | some v => v
       | none => (zeroK, 0)
-    let out := alignWcs sc.imgs sc.refIn sc.cfg sc.pairG refArea
+    fmtOut (alignWcs sc.imgs sc.refIn sc.cfg sc.pairG refArea)
+
+/-- `alignentry <Q|F> <args, see rdArgs> P … A …` → as `align` -/
+def opAlignEntry (K : Type) [LT K] [DecidableLT K] [Add K] [NatCast K] [BEq K] [Sc K]
+    (args : List String) : String :=
+  match (do let a ← rdArgs; let pa ← rdAreas K; pure (a, pa)).run args with
+  | none => "bad-op"
+  | some ((a, pairG, areas), _) =>
+    let refArea : List RefRow → Nat → K × Nat := fun cat g =>
+      match areas.lookup (cat.length, g) with
+      | some v => v
+      | none => (zeroK, 0)
+    fmtOut (alignWcsEntry a pairG refArea)
+
+/-- `fitwcs <metaWritable> <fitgeom> <cat> <img> <refHasRADEC> <nref> <src…>` → `<ok|err:kind> | T <events…>` -/
+def opFitWcs (args : List String) : String :=
+  match (do
+      let mw ← rdBool; let fg ← rdFitgeom; let c ← rdCat; let i ← rdImg
+      let hr ← rdBool; let k ← rdNat; let srcs ← rdMany k rdNat
+      let rest ← get
+      if !rest.isEmpty then failure
+      pure ({ metaWritable := mw, fitgeom := fg, cat := c, img := i, refHasRADEC := hr, refSrcs := srcs } : FitArgs)
+    ).run args with
+  | none => "bad-op"
+  | some (a, _) =>
+    let out := fitWcs a
     let head := match out.err with | none => "ok" | some e => "err:" ++ fmtErr e
-    " ".intercalate ([head, "|", "T"] ++ out.events.map fmtEvent ++ ["|", "O"] ++ (out.order.zip out.nms).map (fun p => fmtGroup p.1 ++ "#" ++ toString p.2)
-      ++ ["|", "C"] ++ out.refcat.map fmtRow
-      ++ ["|", "X"] ++ out.expansions.map fun x =>
-          s!"{fmtGroup x.group}/{if x.ok then 1 else 0}/{if x.areaZero then 1 else 0}/{x.rows.length}")
+    " ".intercalate ([head, "|", "T"] ++ out.events.map fmtEvent)
 
 def opsC13 : List (String × (List String → String)) :=
   [("align", fun args => match args with
       | "Q" :: rest => opAlign Rat rest
       | "F" :: rest => opAlign Float rest
-      | _ => "bad-op")]
+      | _ => "bad-op"),
+   ("alignentry", fun args => match args with
+      | "Q" :: rest => opAlignEntry Rat rest
+      | "F" :: rest => opAlignEntry Float rest
+      | _ => "bad-op"),
+   ("fitwcs", opFitWcs)]
 
 end Drv
